@@ -339,6 +339,13 @@ def check_search_loop(ctx, rep, wl: WLoop):
                 rep.violates(RULE + '.W3', f, st, 'predecessor map {}[{}] is written outside the first-visit guard: a later edge overwrites the backpointer and the map can become cyclic, so the path reconstruction need not terminate'.format(bmap, key))
     # W4 -- exits
     check_exits(ctx, rep, wl)
+    # the accumulated result (a seen-marker that is returned) is returned only after the loop has run to exhaustion
+    loop_node = cfg.n_of(loop)
+    for r in [x for x in walk_no_nested(f.node) if isinstance(x, ast.Return) and isinstance(x.value, ast.Name) and x.value.id in markers]:
+        if cfg.dominates(loop_node, cfg.n_of(r)):
+            rep.holds(RULE + '.W4', f, r, 'the saturated set {} is returned only after the loop'.format(x.value.id) if False else 'the saturated set {} is returned only after the loop'.format(r.value.id), nontrivial=False)
+        else:
+            rep.violates(RULE + '.W4', f, r, 'the set {} is returned on a path that bypasses the saturation loop: the result is not closed under the successor relation'.format(r.value.id))
     return markers
 
 
@@ -790,3 +797,44 @@ def check_marker_alias(ctx, rep, f, rule=RULE + '.W2'):
                 rep.violates(rule, f, wl.loop, 'the worklist {} and its seen-marker {} are the same object: popping an element also un-marks it, so it can be visited again (non-termination on a cycle)'.format(wl.wl, m))
             else:
                 rep.holds(rule, f, 'objects of {} and {}'.format(wl.wl, m), 'worklist and seen-marker are distinct objects', nontrivial=True)
+
+
+def check_scan_loops(ctx, rep, funcs, rule=RULE + '.W7'):
+    """a for-loop over a collection whose body leaves the function on every path never looks at a second element; when a
+    fall-back return follows the loop this is a scan that gives up after the first element"""
+    n = 0
+    for f in funcs:
+        fx = ctx.facts(f)
+        cfg = fx.cfg
+        for lp in walk_no_nested(f.node):
+            if not isinstance(lp, ast.For):
+                continue
+            head = cfg.n_of(lp)
+            body_first = [b for (b, lab) in cfg.succ[head] if lab == 'iter']
+            if not body_first:
+                continue
+            back = head in cfg.reachable(body_first[0], removed_edge=None) and any(head in {b for (b, _) in cfg.succ[x]} for x in cfg.reachable(body_first[0]) if x != head)
+            # is there any path from the body back to the loop head?
+            returns_back = False
+            seen = set()
+            stack = [body_first[0]]
+            while stack:
+                x = stack.pop()
+                if x in seen:
+                    continue
+                seen.add(x)
+                for (y, lab) in cfg.succ[x]:
+                    if y == head:
+                        returns_back = True
+                    elif y not in (cfg.exit, cfg.raise_exit):
+                        stack.append(y)
+            has_return_in_body = any(isinstance(x, ast.Return) for b in lp.body for x in ast.walk(b))
+            if not has_return_in_body:
+                continue
+            n += 1
+            after = [s for s in walk_no_nested(f.node) if isinstance(s, ast.Return) and cfg.n_of(s) in cfg.reachable(head, removed_edge=None) and not any(x is s for x in ast.walk(lp))]
+            if not returns_back and after:
+                rep.violates(rule, f, lp, 'every path through the body of this loop leaves the function, so only the first element is ever examined although a fall-back return follows the loop: the scan gives up after the first element')
+            else:
+                rep.holds(rule, f, lp, 'the scan can reach a further element before it gives up', nontrivial=False)
+    return n
